@@ -31,7 +31,7 @@ def run_script(sc):
     stubs.reset_log()
     emit = stubs.emit
     giles = sc.get("giles")          # real GilesConvergenceCriteria, bounded pseudo-random payoffs
-    stubs.VALUED[0] = {"c0": giles["c0"], "jit": giles["jit"]} if giles else None
+    stubs.VALUED[0] = {"c0": giles["c0"], "jit": giles["jit"], "dip": giles.get("dip")} if giles else None
     steps = list(sc["steps"])
     pos = [0]
     gen = random.Random(sc["gen"]) if "gen" in sc else None
@@ -106,7 +106,21 @@ def run_script(sc):
 
         def criteria(alpha, ml, rmse):        # noqa: F811  (recording wrapper around the real bias test)
             ret = bool(criteria_giles(alpha, ml, rmse))
-            emit(e="Crit", ret=ret, nml=int(len(ml)))
+            # the weak rate handed to the test: the given one, or the regression of the very level means handed to it
+            # (reference evaluation with the same least-squares call; TLC compares equality classes)
+            if giles.get("rates") == "regressed":
+                nlev = len(ml) - 1
+                try:
+                    mat = np.ones((nlev, 2))
+                    mat[:, 0] = range(1, nlev + 1)
+                    with np.errstate(all="ignore"):
+                        x = np.linalg.lstsq(mat, np.log2(np.asarray(ml, dtype=float)[1:]), rcond=None)[0]
+                    ref = max(0.5, -float(x[0]))
+                except Exception:
+                    ref = float("nan")
+            else:
+                ref = 1.0
+            emit(e="Crit", ret=ret, nml=int(len(ml)), alpha=ranks([float(alpha), ref], rel=1e-9))
             return ret
 
     cv = None
@@ -114,11 +128,14 @@ def run_script(sc):
         cv_products = [Product(Spot(), Vanilla(strike=float(k), payoff_type=PayoffType.CALL), maturity=1.0)
                        for k in range(3, 3 + 4 * sc["cv"], 4)]
         cv = ControlVariates(cv_products, prices=[1.5 + k for k in range(sc["cv"])])
+    kw = {}
+    if not (giles and giles.get("rates") == "regressed"):
+        kw["convergence_rates"] = ConvergenceRates(alpha=1.0, beta=1.0, gamma=1.0)
+    # (rates to be regressed: the configuration's own default is used, as a caller who gives no rates gets it)
     conf = ConfigurationMultiLevel(
-        convergence_rates=ConvergenceRates(alpha=1.0, beta=1.0, gamma=1.0),
         convergence_criteria=ConvergenceCriteria(criteria=criteria, compute_mc_paths=compute_mc_paths),
         initial_level=sc["L0"], maximum_level=sc["LMax"], initial_mc_paths=sc["N0"], seed=1,
-        control_variates=cv, nb_of_processes=1)
+        control_variates=cv, nb_of_processes=1, **kw)
     if sc.get("dim", 1) == 1:
         payoff = Forward(strike=0.0)
     else:
